@@ -296,6 +296,12 @@ class Engine2(Engine):
             return [(st, RefV(self.tmpcell(st, args[1])))]
         # --- Vec / VecDeque / Bytes
         if base in ("Vec", "VecDeque", "Bytes") or n.endswith("vec::from_elem") or n.endswith("::to_vec"):
+            # allocation sized by a value: the element count must be bounded by a program constant (ALLOC_MAX elements); a count taken from the
+            # wire without a bound is a `capacity overflow` panic or an allocation failure that aborts the process (reported only when input-dependent)
+            if meth == "with_capacity" and args and isinstance(args[0], IntV):
+                self.oblige(st, fr, "alloc", [Lin(ALLOC_MAX) - lin_of(st, args[0])], t, f"with_capacity({args[0]!r}): element count bounded by {ALLOC_MAX}")
+            if n.endswith("vec::from_elem") and len(args) > 1 and isinstance(args[1], IntV):
+                self.oblige(st, fr, "alloc", [Lin(ALLOC_MAX) - lin_of(st, args[1])], t, f"vec![_; {args[1]!r}]: element count bounded by {ALLOC_MAX}")
             if meth in ("new", "with_capacity"): return [(st, SeqV(const_int(0), None))]
             if n.endswith("vec::from_elem"): return [(st, SeqV(args[1] if isinstance(args[1], IntV) else mk_int(0, MAXLEN), args[0]))]
             if isinstance(a0, SeqV):
@@ -318,7 +324,11 @@ class Engine2(Engine):
                     return [(st, opt(RefV(self.tmpcell(st, el)) if not isinstance(el, BotV) else BOT, not some_only, True))]
                 if meth == "clear": setref(args[0], SeqV(const_int(0), a0.elem)); return [(st, unit)]
                 if meth == "resize":
+                    if isinstance(args[1], IntV): self.oblige(st, fr, "alloc", [Lin(ALLOC_MAX) - lin_of(st, args[1])], t, f"resize({args[1]!r}): element count bounded by {ALLOC_MAX}")
                     setref(args[0], SeqV(args[1], a0.elem)); return [(st, unit)]
+                if meth in ("reserve", "reserve_exact"):
+                    if len(args) > 1 and isinstance(args[1], IntV): self.oblige(st, fr, "alloc", [Lin(ALLOC_MAX) - lin_of(st, args[1])], t, f"reserve({args[1]!r}): element count bounded by {ALLOC_MAX}")
+                    return [(st, unit)]
                 if meth == "append":
                     b = deref(args[1])
                     if isinstance(b, SeqV):
